@@ -430,6 +430,27 @@ def gen_special_case(rng, k):
             "input": [rng.randint(-20, 100) for _ in range(n)], "base_first": rng.random() < 0.5}
 
 
+def gen_tworoots_case(rng):
+    """Two root systems built independently in one process (same parameter names, different
+    values, never asked for parameters), a variables-only reform on each, used one after the
+    other: each reform computes with ITS baseline's parameters."""
+    n = rng.randint(1, 4)
+    def hist():
+        h = [[[2000, 1, 1], rng.randint(0, 40)]]
+        if rng.random() < 0.6:
+            h.append([[rng.choice([2017, 2018]), rng.choice([1, 7]), 1], rng.randint(41, 90)])
+        return h
+    ha, hb = hist(), hist()
+    hb[-1][1] += rng.randint(1, 9) * 100          # the two systems differ at the instant asked
+    mods = rng.choice([[["neutralize", 2]], [["annualize", 2]], [],
+                       [["update", 2, {"ent": None, "type": None, "unit": None, "end": None, "default": 5,
+                                       "formulas": [[[1, 1, 1], ["const", rng.randint(1, 9)]]],
+                                       "eff_ent": "person", "eff_type": "int"}]]])
+    return {"kind": "tworoots", "persons": n, "hists": [ha, hb], "mods": mods,
+            "period": ["month", [rng.choice([2018, 2019]), rng.choice([1, 3, 12]), 1], 1],
+            "input": [rng.randint(-20, 100) for _ in range(n)], "chain": rng.random() < 0.3}
+
+
 def _boundaries(u):
     _k, start, stop, _v = u[:4]
     out = [start, _shift(start, -1)]
@@ -450,7 +471,8 @@ def generate(rng, tier):
     n = {"quick": 260, "escalated": 900, "thorough": 4000}[tier]
     cases = [gen_case(rng) for _ in range(n)]
     cases += [gen_runner_case(rng) for _ in range(max(30, n // 8))]
-    return cases + [gen_special_case(rng, k) for k in range(max(28, n // 10))]
+    cases += [gen_special_case(rng, k) for k in range(max(28, n // 10))]
+    return cases + [gen_tworoots_case(rng) for _ in range(max(20, n // 12))]
 
 
 # ---------------------------------------------------------------------------------------
@@ -604,6 +626,7 @@ def look_system(tbs, sim, nnames, nparams, dates, nflat):
 
 
 _RUNNER_COUNT = [0]
+_RUNNER_BASELINES = []
 
 EXT_VARIABLE = """
 from openfisca_core import periods
@@ -685,6 +708,9 @@ def run_runner(case):
             warnings.simplefilter("ignore")
             base = rules.build_system(dict(sysj, params=sysj["params"][:nflat]), switches)
             add_extra_parameters(base, sysj["params"][nflat:])
+            # the runner's cache is keyed by id(baseline): a baseline stays alive for the whole run,
+            # as the system handed to run_tests does (a collected one would lend its id to the next)
+            _RUNNER_BASELINES.append(base)
 
             def answers(tbs, reqs):
                 sim = rules.build_simulation(tbs, pop, {}, nref)
@@ -781,6 +807,65 @@ def _first_diff(a, b):
     return f"{a} -> {b}"
 
 
+def build_root(variables, params, nref, switches):
+    """A root system built the way a country package does it: TaxBenefitSystem(entities),
+    add_variable, parameters assigned - nothing else touched (no parameter ever read)."""
+    from openfisca_core.parameters import ParameterNode
+    from openfisca_core.taxbenefitsystems import TaxBenefitSystem
+    # the entity definitions of harness/rules.py (the new system copies them, as it does with a
+    # country package's module-level entities)
+    person, household = rules.build_system({"vars": [], "params": [], "switches": []}, set()).entities
+    tbs = TaxBenefitSystem([person, household])
+    for name, d in enumerate(variables):
+        tbs.add_variable(make_class(tbs, name, d, nref, switches))
+    tbs.parameters = ParameterNode("", data={f"p{k}": _hist_data(h) for k, h in enumerate(params)})
+    return tbs
+
+
+def run_tworoots(case):
+    n = case["persons"]
+    pop = {"count": 1, "ids": [0] * n, "roles": [0] + [1] * (n - 1)}
+    nref = {"vars": [None] * 4, "max_loops": 1, "nflat": 1}
+    switches = set()
+    def vd(formulas):
+        return {"ent": "person", "type": "int", "unit": "month", "end": None, "default": 0, "formulas": formulas,
+                "eff_ent": "person", "eff_type": "int"}
+    variables = [vd([]), vd([[[1, 1, 1], ["bin", "add", ["dep", 0, "same", "plain"], ["param", 0]]]]),
+                 vd([[[1, 1, 1], ["bin", "add", ["dep", 1, "same", "plain"], ["const", 1]]]])]
+    period = rules.mk_period(case["period"])
+
+    def answer(tbs):
+        sim = rules.build_simulation(tbs, pop, {}, nref)
+        sim.set_input("v0", period, numpy.array(case["input"]))
+        return rules.ints(sim.calculate("v1", period))
+
+    with warnings.catch_warnings():
+        warnings.simplefilter("ignore")
+        roots = [build_root(variables, [h], nref, switches) for h in case["hists"]]
+        out = {}
+        for tag, root in zip("AB", roots):        # reform A is built and used, then reform B
+            reform = make_reform(case["mods"], nref, switches)(root)
+            if case["chain"]:
+                reform = make_reform([], nref, switches)(reform)
+            out["reform" + tag] = answer(reform)
+        for tag, root in zip("AB", roots):
+            out["root" + tag] = answer(root)
+    return out
+
+
+def oracle_tworoots(case, obs):
+    d = tuple(case["period"][1])
+    for tag, h in zip("AB", case["hists"]):
+        value = [z for start, z in h if tuple(start) <= d][-1]
+        want = [x + value for x in case["input"]]
+        if obs["root" + tag] != want:
+            return f"tworoots-frame: root system {tag} (p0 = {value} at {list(d)}) answers v1 = {obs['root' + tag]}, expected {want}"
+        if obs["reform" + tag] != want:
+            return (f"tworoots-derived: the variables-only reform of root system {tag} (p0 = {value} at {list(d)}) answers "
+                    f"v1 = {obs['reform' + tag]}, its baseline's rules give {want}")
+    return None
+
+
 def _bits(a):
     return numpy.asarray(a, dtype=numpy.float32).tobytes().hex()
 
@@ -861,6 +946,8 @@ def run_impl(case):
         return run_runner(case)
     if case.get("kind") == "special":
         return run_special(case)
+    if case.get("kind") == "tworoots":
+        return run_tworoots(case)
     sysj, pop = case["sys"], case["pop"]
     nref = {"vars": [None] * case["nnames"], "max_loops": sysj.get("max_loops", 1)}
     switches = set()
@@ -987,7 +1074,7 @@ def cstep(s, case):
 
 
 def coq_case(case):
-    if _key(case) in _SKIP or case.get("kind") in ("runner", "special"):
+    if _key(case) in _SKIP or case.get("kind") in ("runner", "special", "tworoots"):
         return "Corr_C14.CSkip"             # the test-runner stream is oracle only
     y0, ny = case["window"]
     return (f"(CCase {cz(y0)} {rules.cnat(ny)} {rules.csys(case['sys'], None)} {rules.cpop(case['pop'])} "
@@ -995,7 +1082,7 @@ def coq_case(case):
 
 
 def obs_for_coq(case, obs):
-    if case.get("kind") in ("runner", "special") and not isinstance(obs, Err):
+    if case.get("kind") in ("runner", "special", "tworoots") and not isinstance(obs, Err):
         return "skip"
     return obs
 
@@ -1246,6 +1333,8 @@ def oracle(case, obs):
         return oracle_runner(case, obs)
     if case.get("kind") == "special":
         return oracle_special(case, obs)
+    if case.get("kind") == "tworoots":
+        return oracle_tworoots(case, obs)
     findings, f20 = _walk(case, obs)
     if findings:
         cls, text = findings[0]
@@ -1272,6 +1361,8 @@ def nontrivial(case, obs):
         return False
     if case.get("kind") == "special":
         return obs["neutralized"]
+    if case.get("kind") == "tworoots":
+        return obs["rootA"] != obs["rootB"]
     if case.get("kind") == "runner":
         return any(chain and with_ext and rec["error"] is None for (chain, with_ext), rec in zip(case["calls"], obs["calls"]))
     derived_ok = any(s[0] in ("clone", "reform", "mod") and o is None for s, o in zip(case["steps"], obs))
@@ -1289,6 +1380,8 @@ def classify(case, obs):
         return "test-runner"
     if case.get("kind") == "special":
         return "special-default " + case["default"]
+    if case.get("kind") == "tworoots":
+        return "two-roots"
     kinds = set()
     for s in case["steps"]:
         if s[0] == "clone":
